@@ -48,7 +48,7 @@ func histScriptFor(ops []kmodel.Op) *histScript {
 }
 
 type c09Stats struct {
-	transitions, replayed, refusals, eacces, einval, invalid, attached, modelMismatch int64
+	transitions, replayed, refusals, eacces, einval, invalid, attached, modelMismatch, hung int64
 }
 
 func histString(ops []kmodel.Op) string {
@@ -61,11 +61,29 @@ func histString(ops []kmodel.Op) string {
 
 // replayHistory runs the history on the real kernel and checks model conformance and the property at every step.
 func replayHistory(ctx *evid.Ctx, priv bool, ops []kmodel.Op, st *c09Stats) {
+	if atomic.LoadInt64(&st.hung) > 12 {
+		return
+	}
 	sc := histScriptFor(ops)
 	hr := runHist(sc, !priv)
 	atomic.AddInt64(&st.replayed, 1)
 	perStep := 1 + c09Threads // state + probes
 	want := perStep + len(ops)*(1+perStep)
+	if atomic.LoadInt64(&st.hung) > 12 {
+		return // too many children hung already: the run is reported as incomplete, do not spend minutes on the rest
+	}
+	if hr.TimedOut {
+		atomic.AddInt64(&st.hung, 1)
+	}
+	if len(hr.Results) < want && len(hr.Results) < len(sc.Ops) {
+		// the child died in the middle of the script: which operation was it executing?
+		dying := sc.Ops[len(hr.Results)]
+		prevSupported := len(hr.Results) > 0 && sc.Ops[len(hr.Results)-1].Op == "supported"
+		if dying.Op == "supported" || ((dying.Op == "state" || dying.Op == "probe") && prevSupported) {
+			ctx.Violation("C09:supported:process-died", fmt.Sprintf("the process did not survive probing for support (signal %v, exit %d; a hang counts: the probing thread was killed) in history [%s]: Supported() changed process state", hr.Signal, hr.ExitCode, histString(ops)), map[string]any{"privileged": priv, "history": ops})
+			return
+		}
+	}
 	if hr.TimedOut || len(hr.Results) != want {
 		ctx.Flaky()
 		fmt.Printf("HARNESS-ERROR child did not complete history %s (priv=%v): %d/%d results, exit=%d sig=%v stderr=%.200s\n", histString(ops), priv, len(hr.Results), want, hr.ExitCode, hr.Signal, hr.Stderr)
